@@ -149,19 +149,68 @@ class Evaluator:
             return arr
         raise Unsupported("operator %s" % d.name())
 
+    def _ranges(self, q, bound):
+        """per-variable ranges read off the guard `lo <= v`, `v < hi` conjuncts of ForAll(vs, Implies(guard, ..))"""
+        n = q.num_vars()
+        lo0, hi0 = self.qrange
+        rng = [[lo0, hi0] for _ in range(n)]
+        body = q.body()
+        if not (z3.is_app(body) and body.decl().kind() == z3.Z3_OP_IMPLIES and q.is_forall()):
+            return rng
+        guard = body.arg(0)
+        conj = guard.children() if z3.is_and(guard) else [guard]
+
+        def hasvar(e):
+            if z3.is_var(e):
+                return True
+            return any(hasvar(c) for c in e.children())
+        import math as _m
+        for c in conj:
+            if not z3.is_app(c) or c.num_args() != 2:
+                continue
+            k = c.decl().kind()
+            a, b = c.arg(0), c.arg(1)
+            if k not in (z3.Z3_OP_LE, z3.Z3_OP_LT, z3.Z3_OP_GE, z3.Z3_OP_GT):
+                continue
+            if z3.is_var(a) and not hasvar(b):
+                vi, other, flip = z3.get_var_index(a), b, False
+            elif z3.is_var(b) and not hasvar(a):
+                vi, other, flip = z3.get_var_index(b), a, True
+            else:
+                continue
+            if vi >= n:
+                continue
+            try:
+                val = self.ev(other, bound)
+            except Exception:
+                continue
+            pos = n - 1 - vi
+            kk = k
+            if flip:
+                kk = {z3.Z3_OP_LE: z3.Z3_OP_GE, z3.Z3_OP_LT: z3.Z3_OP_GT, z3.Z3_OP_GE: z3.Z3_OP_LE, z3.Z3_OP_GT: z3.Z3_OP_LT}[k]
+            if kk == z3.Z3_OP_GE:
+                rng[pos][0] = max(rng[pos][0], int(_m.ceil(val)))
+            elif kk == z3.Z3_OP_GT:
+                rng[pos][0] = max(rng[pos][0], int(_m.floor(val)) + 1)
+            elif kk == z3.Z3_OP_LE:
+                rng[pos][1] = min(rng[pos][1], int(_m.floor(val)))
+            elif kk == z3.Z3_OP_LT:
+                rng[pos][1] = min(rng[pos][1], int(_m.ceil(val)) - 1)
+        return rng
+
     def quant(self, q, bound):
         n = q.num_vars()
-        lo, hi = self.qrange
         is_forall = q.is_forall()
         body = q.body()
         db = list(bound.get("__db__", []))
+        ranges = self._ranges(q, bound)
 
         def rec(k, vals):
             if k == n:
                 b2 = dict(bound)
                 b2["__db__"] = db + vals
                 return self.ev(body, b2)
-            for v in range(lo, hi + 1):
+            for v in range(ranges[k][0], ranges[k][1] + 1):
                 r = rec(k + 1, vals + [v])
                 if is_forall and not r:
                     return False
